@@ -338,6 +338,9 @@ func c19ClauseKind(clause string) string {
 			what := ""
 			if i := strings.IndexByte(clause, ':'); i > 0 && i < 30 && !strings.HasPrefix(clause, "panic") {
 				what = clause[:i] + " "
+				if strings.Contains(what, k) {
+					what = ""
+				}
 			}
 			return what + k
 		}
